@@ -796,7 +796,7 @@ def x_instr_dump(co, opc, max_code=None, dup_lines=False):
         res["linestarts"] = [[a, b] for a, b in opc.findlinestarts(co)]
     except Exception as e:
         res["linestarts_err"] = "%s: %s" % (type(e).__name__, e)
-    if opc.version_tuple >= (3, 10) and not isinstance(co, types.CodeType):
+    if opc.version_tuple >= (3, 10):
         if hasattr(co, "co_lines"):
             try:
                 res["co_lines"] = [list(t) for t in co.co_lines()]
@@ -1147,6 +1147,24 @@ def op_x_rewrite(req):
         return out
     with open(dst, "rb") as f:
         out["data"] = hx(f.read())
+    return out
+
+
+def op_x_c07(req):
+    """C07: everything xdis decodes from a file on this host by one route + the classic listing."""
+    x = xd()
+    data = unhx(req["data"])
+    path = scratch_path("c07.pyc")
+    with open(path, "wb") as f:
+        f.write(data)
+    r = x_dump_file(data=data, path=path if req["route"] == "load_module" else None, want_dis=True,
+                    max_code=req.get("max_code"), route=req["route"], dup_lines=True)
+    out = {"tree": r["tree"], "dis": r["dis"], "native": r["native"], "header": r["header"]}
+    if req.get("listing"):
+        import io
+        buf = io.StringIO()
+        x.disasm.disassemble_file(path, buf, req.get("fmt", "classic"))
+        out["listing"] = buf.getvalue()
     return out
 
 
